@@ -233,6 +233,13 @@ func (r *relayItems) Delete(id uint32) (relayItem, bool) {
 // a relayed call.
 func (r *relayItems) Entomb(id uint32, deleteAfter time.Duration) (relayItem, bool) {
 	r.Lock()
+	if item, ok := r.items[id]; ok && item.finished {
+		// The frame that ends this call is already on its way to the receiver and
+		// the item is about to be deleted: there is nothing left to fail (also when
+		// the tombstone limit is exceeded).
+		r.Unlock()
+		return item, false
+	}
 	if r.tombs > r.maxTombs {
 		r.Unlock()
 		r.logger.WithFields(LogField{"id", id}).Warn("Too many tombstones, deleting relay item immediately.")
@@ -247,12 +254,6 @@ func (r *relayItems) Entomb(id uint32, deleteAfter time.Duration) (relayItem, bo
 	if item.tomb {
 		r.Unlock()
 		r.logger.WithFields(LogField{"id", id}).Warn("Re-entombing a tombstone.")
-		return item, false
-	}
-	if item.finished {
-		// The frame that ends this call is already on its way to the receiver and
-		// the item is about to be deleted: there is nothing left to fail.
-		r.Unlock()
 		return item, false
 	}
 	r.tombs++
